@@ -330,15 +330,24 @@ fn gen_levels(t: &mut Tape, n: usize, groups: bool) -> Vec<u16> {
 pub fn offset_for(t: &mut Tape, canvas: u16, size: u16, extreme: bool) -> i16 {
     let c = canvas as i32;
     let s = size as i32;
-    let v: i32 = match t.below(if extreme { 8 } else { 6 }) {
-        0 => 0,
-        1 => t.range(0, (c - s).max(0) as i64) as i32, // inside
-        2 => -(t.range(1, s.max(1) as i64) as i32),    // straddle low edge (or fully off when == s)
-        3 => c - t.range(0, s as i64) as i32,          // straddle high edge
-        4 => c + t.range(0, 5) as i32,                 // fully off beyond
-        5 => -s - t.range(0, 5) as i32,                // fully off before
-        6 => t.pick(&[i16::MIN as i32, i16::MAX as i32, -1, 1, i16::MIN as i32 + 1, i16::MAX as i32 - 1]),
-        _ => t.raw() as i16 as i32,
+    let v: i32 = match t.below(12) {
+        0 | 1 => 0,
+        2 | 3 | 4 => t.range(0, (c - s).max(0) as i64) as i32, // inside
+        5 | 6 => -(t.range(1, s.max(1) as i64) as i32),        // straddle low edge (or fully off when == s)
+        7 | 8 => c - t.range(0, s as i64) as i32,              // straddle high edge
+        9 => c + t.range(0, 5) as i32,                         // fully off beyond
+        10 => -s - t.range(0, 5) as i32,                       // fully off before
+        _ => {
+            if extreme {
+                if t.chance(1, 2) {
+                    t.pick(&[i16::MIN as i32, i16::MAX as i32, -1, 1, i16::MIN as i32 + 1, i16::MAX as i32 - 1])
+                } else {
+                    t.raw() as i16 as i32
+                }
+            } else {
+                0
+            }
+        }
     };
     v.clamp(i16::MIN as i32, i16::MAX as i32) as i16
 }
